@@ -204,6 +204,13 @@ Theorem C18_sdp_fuel_sufficient : forall max_depth d, from_bytes max_depth d <> 
 Proof. exact from_bytes_never_out_of_fuel. Qed.
 Print Assumptions C18_sdp_fuel_sufficient.
 
+(* a child element that ends beyond its SEQUENCE / ALTERNATIVE is rejected (code after D17b) *)
+Theorem C18_sdp_container_overrun_rejected : forall pn dep k' d budget e c raw cn,
+  0 < budget -> parse_next pn dep d = POk e c raw cn -> budget < c ->
+  parse_list pn dep (S k') d budget = LErr.
+Proof. exact parse_list_overrun_rejected. Qed.
+Print Assumptions C18_sdp_container_overrun_rejected.
+
 (* the nesting hypothesis is needed: deeper values serialise but are rejected on parse *)
 Theorem C18_sdp_nesting_limit_refuted : exists e b, encode e = Some b /\ from_bytes 1 b = PErr.
 Proof. exact sdp_depth_refuted. Qed.
@@ -406,6 +413,10 @@ Example C18_ex_sdp_nested :
   let e := ESeq [EUInt 2 256; EText (repeat 65 256); EAlt [EBool true; ENil; EUuid [52; 18]]] in
   elem_ok sdp_max_nesting e = true /\
   match encode e with Some b => from_bytes sdp_max_nesting b = POk e (lenZ b) b true | None => False end.
+Proof. vm_compute. split; reflexivity. Qed.
+
+Example C18_ex_sdp_overrun :
+  from_bytes sdp_max_nesting [53; 1; 129] = PErr /\ from_bytes sdp_max_nesting [53; 2; 40; 1] = POk (ESeq [EBool true]) 4 [53; 2; 40; 1] true.
 Proof. vm_compute. split; reflexivity. Qed.
 
 Example C18_ex_uuid_history :
